@@ -153,16 +153,17 @@ Section AddContext.
   Qed.
 
   (* a chunk with core lines Xc / Yc, gap g before and gn after *)
-  Lemma find_context_ok : forall n (c : chunk) (l1 r1 g Xc Yc gn l2 r2 : list T),
+  (* the counts only matter through the number of iterations they allow *)
+  Lemma find_context_gen : forall n (c : chunk) (l1 r1 g Xc Yc gn l2 r2 : list T) npre npost,
       L = l1 ++ g ++ Xc ++ gn ++ l2 -> R = r1 ++ g ++ Yc ++ gn ++ r2 ->
       LStart c = 1 + len l1 + len g -> RStart c = 1 + len r1 + len g ->
       LEnd c = LStart c + len Xc -> REnd c = RStart c + len Yc ->
-      find_context eqb L R c (Z.min n (len g)) (Z.min n (len gn)) = Ok (ctx_pre n g, ctx_post n gn).
+      Z.to_nat npre = ctx_k n g -> Z.to_nat npost = ctx_k n gn ->
+      find_context eqb L R c npre npost = Ok (ctx_pre n g, ctx_post n gn).
   Proof.
-    intros n c l1 r1 g Xc Yc gn l2 r2 HL HR Hls Hrs Hle Hre.
+    intros n c l1 r1 g Xc Yc gn l2 r2 npre npost HL HR Hls Hrs Hle Hre Hnpre Hnpost.
     unfold find_context, fc_pre_count, fc_post_count.
-    change (Z.to_nat (Z.min n (len g))) with (ctx_k n g).
-    change (Z.to_nat (Z.min n (len gn))) with (ctx_k n gn).
+    rewrite Hnpre, Hnpost.
     pose proof (ctx_k_le n g) as Hk. pose proof (ctx_k_le n gn) as Hkn.
     (* pre *)
     set (u := firstn (length g - ctx_k n g) g).
@@ -190,6 +191,13 @@ Section AddContext.
     2:{ reflexivity. }
     reflexivity.
   Qed.
+
+  Lemma find_context_ok : forall n (c : chunk) (l1 r1 g Xc Yc gn l2 r2 : list T),
+      L = l1 ++ g ++ Xc ++ gn ++ l2 -> R = r1 ++ g ++ Yc ++ gn ++ r2 ->
+      LStart c = 1 + len l1 + len g -> RStart c = 1 + len r1 + len g ->
+      LEnd c = LStart c + len Xc -> REnd c = RStart c + len Yc ->
+      find_context eqb L R c (Z.min n (len g)) (Z.min n (len gn)) = Ok (ctx_pre n g, ctx_post n gn).
+  Proof. intros. eapply find_context_gen; eauto. Qed.
 
   (* the chunk update after findContext *)
   Lemma ac_chunk_ok : forall n (c : chunk) prevEnd nextStart pre post,
